@@ -773,3 +773,28 @@ PROPS["C13"] = dict(
     assumptions=["HMAC unforgeability, AES-CFB/CTR secrecy", "partial: chunked modes and aiounicast_nonblock are not modelled in Lean (scenario predicate on the real classes only)",
                  "known finding F13: the IV of an encrypted link is not covered by the MAC"],
 )
+
+
+# ---------------------------------------------------------------------------- C12
+def pred_c12(line, st):
+    op, a, r = toks(line)
+    if r and (r[0].startswith("trap:") or r[0] in ("timeout", "oom")):
+        return "untrusted input ended in %s (%s)" % (r[0], op)
+    if op.startswith("prop.parse") and r and r[0] not in ("ok", "reject", "accept") and not r[0].startswith("throw:"):
+        return "parser outcome %s" % r[0]
+    return None
+
+
+PROPS["C12"] = dict(
+    module="TmcgProps.C12",
+    areas=[("io", {"quick": 200, "thorough": 6000}, [], "san"), ("groups", {"quick": 100, "thorough": 3000}, [], "san"),
+           ("parse", {"quick": 30, "thorough": 3000}, [], "san")],
+    obligations=[("Tmcg.C12.imported_indices_in_range", "full"), ("Tmcg.C12.import_alloc_bound", "full"),
+                 ("Tmcg.C12.remask_never_traps", "full"), ("Tmcg.C12.mix_never_traps", "full"),
+                 ("Tmcg.C12.verifier_index_safe", "full"), ("Tmcg.C12.size_mismatch_aborts", "full")],
+    predicate=pred_c12,
+    level_text="Partial by nature. Lean 4 theorems about the model's parsing and indexing logic (importers total with bounded allocation and in-range indices; re-masking, mixing and the cut-and-choose verifier end in a verdict or a standard exception for every input). "
+               "C++ memory safety rests on sanitizer-observed behaviour: the real importers, stream constructors + CheckGroup, key/card/stack parsers, OpenPGP decoders and verifier receive paths are fed structure-aware mutations of valid inputs under ASan/UBSan; any sanitizer report, signal, abort or time-out is a violation with the input as replay.",
+    level_note=LEVEL_NOTE + " There is no proof about the C++ heap; agreement and absence of sanitizer reports are established on the explored inputs only.",
+    assumptions=["partial: theorems cover the model's logic for the discrete-log card family; the other parsers are covered by sanitizer exploration only"],
+)
